@@ -91,23 +91,41 @@ type c04XPath struct {
 func (x c04XPath) String() string { return x.Path + x.Pred }
 
 // c04Expected evaluates the property's definition on the fully loaded document.
+// the fully loaded document of the most recent (kind, doc) and its candidates per path: the xpaths of
+// one document are checked one after the other, and queries do not change the tree
+var c04Whole struct {
+	kind, doc string
+	root      *idr.Node
+	cands     map[string][]*idr.Node
+}
+
 func c04Expected(kind, doc string, xp c04XPath) ([]string, string) {
-	whole, err := newStream(kind, doc, ".")
-	if err != nil {
-		return nil, "harness: " + err.Error()
+	if c04Whole.root == nil || c04Whole.kind != kind || c04Whole.doc != doc {
+		whole, err := newStream(kind, doc, ".")
+		if err != nil {
+			return nil, "harness: " + err.Error()
+		}
+		top, err := whole.Read()
+		if err != nil {
+			return nil, "harness: whole-document load failed: " + err.Error()
+		}
+		root := top
+		for root.Parent != nil {
+			root = root.Parent
+		}
+		c04Whole.kind, c04Whole.doc, c04Whole.root, c04Whole.cands = kind, doc, root, map[string][]*idr.Node{}
 	}
-	top, err := whole.Read()
-	if err != nil {
-		return nil, "harness: whole-document load failed: " + err.Error()
+	root := c04Whole.root
+	cands, ok := c04Whole.cands[xp.Path]
+	if !ok {
+		var err error
+		cands, err = idr.MatchAll(root, xp.Path)
+		if err != nil {
+			return nil, "harness: " + err.Error()
+		}
+		c04Whole.cands[xp.Path] = cands
 	}
-	root := top
-	for root.Parent != nil {
-		root = root.Parent
-	}
-	cands, err := idr.MatchAll(root, xp.Path)
-	if err != nil {
-		return nil, "harness: " + err.Error()
-	}
+	var err error
 	full, err := idr.MatchAll(root, xp.String())
 	if err != nil {
 		return nil, "harness: " + err.Error()
@@ -361,7 +379,7 @@ func init() {
 	core.Register(&core.Prop{
 		ID:    "C04",
 		Level: "exploration",
-		Rule:  "every XML document with up to N elements (all tree shapes to depth 4, names {a,b}, optional attribute k, text before/after the children; once with a unique id attribute per element for exact node identity and once without) and every JSON value with up to N value nodes (scalars, arrays, objects over keys {a,b}, any nesting) x every target xpath = path in {/a,/a/b,/*/b,//b,/a//b,/a/*,//*,..} + final-step predicate on the candidate's own value/attribute/text/children/descendants (incl. literals containing brackets and the other quote character), and - on documents up to 3 (thorough 4) nodes - several filters on the final step and spelling variants (white space, nested brackets, self axis); the stream reader's delivered nodes (serialised at delivery time) must equal, in order, the outermost nodes selected on the fully loaded document that satisfy the full xpath; a case is distinct by (document, xpath), outcome class = (xpath, number of records)",
+		Rule:  "every XML document with up to N elements (all tree shapes to depth 4, names {a,b}, optional attribute k, text before/after the children, and for documents up to 2 (thorough 3) elements also comments, CDATA sections, processing instructions and line breaks there; once with a unique id attribute per element for exact node identity and once without) and every JSON value with up to N value nodes (scalars, arrays, objects over keys {a,b}, any nesting) x every target xpath = path in {/a,/a/b,/*/b,//b,/a//b,/a/*,//*,..} + final-step predicate on the candidate's own value/attribute/text/children/descendants (incl. literals containing brackets and the other quote character), and - on documents up to 3 (thorough 4) nodes - several filters on the final step and spelling variants (white space, nested brackets, self axis); the stream reader's delivered nodes (serialised at delivery time) must equal, in order, the outermost nodes selected on the fully loaded document that satisfy the full xpath; a case is distinct by (document, xpath), outcome class = (xpath, number of records)",
 		Assumptions: []string{
 			"the whole-document tree is loaded by the same reader with target '.', so node construction itself is C08's subject, not C04's",
 			"xpaths are of the property's class: predicates only on the final step and only about the candidate itself",
@@ -375,11 +393,13 @@ func init() {
 				al  c04XMLAlpha
 				ids bool // give every element a unique id attribute (exact node identity)
 			}
-			xplans := []xplan{{1, full, true}, {2, full, true}, {3, full, true}, {4, red, true}, {1, full, false}, {2, full, false}, {3, full, false}}
+			// comments, CDATA, processing instructions and line breaks around and between candidates
+			misc := c04XMLAlpha{names: []string{"a", "b"}, attrs: []string{"", "1"}, lead: []string{"", "<!--c-->1", "<![CDATA[1]]>", "<?p x?>2", "\n"}, trail: []string{"", "<!--c-->", "<![CDATA[ ]]>", "\n"}}
+			xplans := []xplan{{1, full, true}, {2, full, true}, {3, full, true}, {4, red, true}, {1, full, false}, {2, full, false}, {3, full, false}, {1, misc, false}, {2, misc, false}, {2, misc, true}}
 			jmax := 4
 			if !c.Quick() {
 				xplans = []xplan{{1, full, true}, {2, full, true}, {3, full, true}, {4, full, true}, {5, red, true},
-					{1, full, false}, {2, full, false}, {3, full, false}, {4, red, false}}
+					{1, full, false}, {2, full, false}, {3, full, false}, {4, red, false}, {1, misc, false}, {2, misc, false}, {3, misc, false}, {3, misc, true}}
 				jmax = 5
 			}
 			idx := 0
